@@ -21,6 +21,7 @@ import (
 	"github.com/janelia-flyem/dvid/datatype/common/labels"
 	"github.com/janelia-flyem/dvid/datatype/common/proto"
 	"github.com/janelia-flyem/dvid/dvid"
+	"github.com/janelia-flyem/dvid/dvid/verifhook"
 	"github.com/janelia-flyem/dvid/server"
 	"github.com/janelia-flyem/dvid/storage"
 	lz4 "github.com/janelia-flyem/go/golz4-updated"
@@ -661,6 +662,7 @@ func (d *Data) cleaveIndex(v dvid.VersionID, op labels.CleaveOp, info dvid.ModIn
 		dvid.Criticalf("unable to add cleaved mutid %d index %d: %v\n", op.MutID, op.Target, err)
 	}
 
+	verifhook.Yield("labelmap.cleaveIndex.read")
 	supervoxels := idx.GetSupervoxels()
 	for _, supervoxel := range op.CleavedSupervoxels {
 		if _, found := supervoxels[supervoxel]; !found {
@@ -701,6 +703,7 @@ func ChangeLabelIndex(d dvid.Data, v dvid.VersionID, label uint64, delta labels.
 	if err != nil {
 		return err
 	}
+	verifhook.Yield("labelmap.ChangeLabelIndex.read")
 	if idx == nil {
 		idx = new(labels.Index)
 		idx.Label = label
